@@ -24,7 +24,7 @@ EXPLANATION = (
     'empty key and the key itself and nothing else; (R3) exclusive end bounds of variable-length key prefixes are computed '
     'by a successor that can shorten, increment_by_one / prefix_successor evaluated on concrete byte strings (trailing '
     '0xFF runs, all-0xFF, empty); (R4) prefix-removal bounds derive from the namespace/author/key of the entry inserted; '
-    '(R5) no store mutation precedes a NotInserted return. NOT decided: commutativity/idempotence over all permutations as '
+    '(R5) no store mutation precedes a NotInserted return. (R6) the store-actor handlers of InsertLocal / DeletePrefix / InsertRemote evaluated (K14b): every offered entry reaches the replica, the removed-count of a deletion is what is answered. NOT decided: commutativity/idempotence over all permutations as '
     'such (value-level).'
 )
 ASSUMPTIONS = [
@@ -827,9 +827,17 @@ def r5(ctx):
     ctx.floor("C02.R5", 4)
 
 
+def r6(ctx):
+    """every entry offered through the asynchronous handle - a local write, a local deletion, a remote insert - reaches the
+    replica (no request is answered without having been offered to it), with the fields of the request (K14b)"""
+    from . import actorfw
+    actorfw.claim(ctx, "C02.R6", handlers=("InsertLocal", "DeletePrefix", "InsertRemote"), floor=10)
+
+
 def run(ctx):
     ctx.run_rule("C02.R1", r1)
     ctx.run_rule("C02.R2", r2)
     ctx.run_rule("C02.R3", r3)
     ctx.run_rule("C02.R4", r4)
     ctx.run_rule("C02.R5", r5)
+    ctx.run_rule("C02.R6", r6)
